@@ -575,7 +575,7 @@ class Function:
                 if st.startswith(']'):
                     in_switch = False
                 continue
-            if st.startswith('to label ') or st.startswith('cleanup') or st.startswith('catch ') or st.startswith('filter '):
+            if st.startswith('to label ') or st == 'cleanup' or st.startswith('catch ') or st.startswith('filter '):
                 joined[-1] += ' ' + st
                 continue
             if (st.startswith('switch ') or ' = switch ' in st) and st.endswith('['):
